@@ -210,6 +210,8 @@ def load_module_from_file_object(
     timestamp = 0
     try:
         magic = fp.read(4)
+        if len(magic) != 4:
+            raise ImportError(f"Bad magic number: '{magic}'")
         magic_int = magic2int(magic)
 
         # For reasons I don't understand, PyPy 3.2 stores a magic
@@ -267,7 +269,12 @@ def load_module_from_file_object(
             )
         elif magic_int == 62135:
             fp.seek(0)
-            return fix_dropbox_pyc(fp)
+            try:
+                return fix_dropbox_pyc(fp)
+            except Exception as e:
+                raise ImportError(
+                    f"Ill-formed Dropbox bytecode file {filename}\n{type(e)}; {e}"
+                )
         elif magic_int == 62215:
             raise ImportError(
                 "%s is a dropbox-hacked Python %s (bytecode %d).\n"
